@@ -98,6 +98,8 @@ var (
 		`{prefix {0} GET}`, `{bucket {2} 100}`, `{if {eq {1} GET} g {1}}`, `{upper {1}}`, `{src}:{line}:{0}`, `{len {0}}`,
 		// stages that take objects from the process-wide pools
 		`{@join {@map {@split {0} " "} "{upper {0}}"} -}`, `{@reduce {@split {0} " "} "{sumi {len {0}} {len {1}}}"}`,
+		// math stages: a pooled per-call-site context that counts conversion errors ({2} is a number on some lines only)
+		`{! [2] * 2 + 1}`, `{! [2] / 100} {! [1] + 1}`,
 	}
 	genExtractNamedRe = []string{`{verb}`, `{code}-{path}`, `{verb} {2}`}
 	genExtractNamedDs = map[string][]string{
